@@ -55,12 +55,22 @@ fn manager_history(acc: &mut Acc, r: &mut Rng, steps: u64) {
     )
     .unwrap();
     let n_hooks = r.range(0, 3) as usize;
+    // a pool of three recording hook contracts; the first n_hooks are registered from the start, the owner adds and
+    // removes the others (and these) in the middle of two thirds of the histories
     let mut hooks = vec![];
-    for i in 0..n_hooks {
+    let mut registered = [false; 3];
+    let mut failing = [false; 3];
+    let mut expected: Vec<Vec<(u64, u64)>> = vec![vec![], vec![], vec![]];
+    for i in 0..3 {
         let h = inst(&mut app, hcode, &owner, &Empty {}, &[], &format!("hook{i}"), None).unwrap();
-        exec(&mut app, &owner, &mgr, &em::ExecuteMsg::AddHook { contract_addr: h.to_string() }, &[]).unwrap();
+        if i < n_hooks {
+            exec(&mut app, &owner, &mgr, &em::ExecuteMsg::AddHook { contract_addr: h.to_string() }, &[]).unwrap();
+            registered[i] = true;
+        }
         hooks.push(h);
     }
+    let churn_hooks = r.chance(2, 3);
+    let inject_faults = r.chance(1, 2);
     // model
     let (mut mid, mut mstart) = (id0, genesis);
     let mut created: Vec<(u64, u64)> = vec![];
@@ -82,6 +92,27 @@ fn manager_history(acc: &mut Acc, r: &mut Rng, steps: u64) {
                 duration = nd;
             }
         }
+        if churn_hooks && r.chance(1, 8) {
+            let i = r.below(3) as usize;
+            let add = r.chance(1, 2);
+            let msg = if add { em::ExecuteMsg::AddHook { contract_addr: hooks[i].to_string() } } else { em::ExecuteMsg::RemoveHook { contract_addr: hooks[i].to_string() } };
+            let res = exec(&mut app, &owner, &mgr, &msg, &[]);
+            ops.push(format!("owner {} hook{i} (registered before: {}) -> {}", if add { "adds" } else { "removes" }, registered[i], if res.is_ok() { "ok" } else { "rejected" }));
+            if res.is_ok() {
+                acc.count(if add { "manager.hook.added" } else { "manager.hook.removed" });
+                if add && registered[i] {
+                    acc.count("manager.hook.added-twice");
+                }
+                registered[i] = add;
+            }
+        }
+        let fi = r.below(3) as usize;
+        if inject_faults && (if failing[fi] { r.chance(1, 2) } else { r.chance(1, 14) }) {
+            let i = fi;
+            failing[i] = !failing[i];
+            exec(&mut app, &users[0], &hooks[i], &HookRxExec::SetFail { fail: failing[i] }, &[]).unwrap();
+            ops.push(format!("hook{i} {} answering with an error", if failing[i] { "starts" } else { "stops" }));
+        }
         let now = app.block_info().time.nanos();
         let t = schedule_step(r, now, mstart, duration, genesis);
         if t > now {
@@ -91,9 +122,13 @@ fn manager_history(acc: &mut Acc, r: &mut Rng, steps: u64) {
         for _ in 0..attempts {
             let now = app.block_info().time.nanos();
             let who = r.pick(&users).clone();
-            let expect_ok = now >= mstart && now - mstart >= duration;
+            let due = now >= mstart && now - mstart >= duration;
+            // a registered hook that answers with an error aborts the whole creation (nobody is notified, no epoch)
+            let hook_fault = (0..3).any(|i| registered[i] && failing[i]);
+            let expect_ok = due && !hook_fault;
+            let n_hooks = registered.iter().filter(|x| **x).count();
             let before = snap(&app);
-            let what = format!("create_epoch @{now} (model: id {mid}, start {mstart}, duration {duration}, expect {})", if expect_ok { "accept" } else { "reject" });
+            let what = format!("create_epoch @{now} (model: id {mid}, start {mstart}, duration {duration}, registered hooks {registered:?}, failing {failing:?}, expect {})", if expect_ok { "accept" } else { "reject" });
             ops.push(what.clone());
             let res = exec(&mut app, &who, &mgr, &em::ExecuteMsg::CreateEpoch {}, &[]);
             let klass = if now < genesis { 0 } else if now < mstart + duration { 1 } else if now == mstart + duration { 2 } else if now - mstart < 2 * duration { 3 } else { 4 };
@@ -102,9 +137,11 @@ fn manager_history(acc: &mut Acc, r: &mut Rng, steps: u64) {
             match res {
                 Ok(_) => {
                     acc.count("manager.create.ok");
-                    if !expect_ok {
+                    if !due {
                         let early = if now < genesis { "before-genesis" } else { "before-duration-elapsed" };
                         acc.violation("C20", &format!("T1/manager/early-epoch-accepted/{early}"), detail(&ops, json!({"now": now, "start": mstart, "duration": duration})));
+                    } else if hook_fault {
+                        acc.violation("C20", "T3/epoch-created-although-a-registered-hook-failed", detail(&ops, json!({"registered": format!("{registered:?}"), "failing": format!("{failing:?}")})));
                     }
                     if klass == 4 {
                         acc.count("manager.create.ok.several-durations-late");
@@ -112,6 +149,11 @@ fn manager_history(acc: &mut Acc, r: &mut Rng, steps: u64) {
                     mid += 1;
                     mstart += duration;
                     created.push((mid, mstart));
+                    for i in 0..3 {
+                        if registered[i] && !(hook_fault && failing[i]) {
+                            expected[i].push((mid, mstart));
+                        }
+                    }
                     let cur: em::EpochResponse = query(&app, &mgr, &em::QueryMsg::CurrentEpoch {}).unwrap();
                     if cur.epoch.id != mid || cur.epoch.start_time.nanos() != mstart {
                         acc.violation("C20", "T2/manager/new-epoch!=previous+1,start+duration", detail(&ops, json!({"contract": format!("{:?}", cur.epoch), "model_id": mid, "model_start": mstart})));
@@ -123,8 +165,11 @@ fn manager_history(acc: &mut Acc, r: &mut Rng, steps: u64) {
                     for (hi, h) in hooks.iter().enumerate() {
                         let seen: Vec<HookRecord> = query(&app, h, &Empty {}).unwrap();
                         let got: Vec<(u64, u64)> = seen.iter().map(|x| (x.epoch_id, x.start_time_ns)).collect();
-                        if got != created {
-                            acc.violation("C20", "T3/hook-notifications!=created-epochs", detail(&ops, json!({"hook": hi, "seen": format!("{got:?}"), "created": format!("{created:?}")})));
+                        if got != expected[hi] {
+                            acc.violation("C20", "T3/hook-notifications!=created-epochs", detail(&ops, json!({"hook": hi, "seen": format!("{got:?}"), "epochs created while registered": format!("{:?}", expected[hi]), "created": format!("{created:?}")})));
+                        }
+                        if !registered[hi] && !expected[hi].is_empty() {
+                            acc.count("manager.hook.removed-hook-stays-silent");
                         }
                     }
                 }
@@ -132,6 +177,9 @@ fn manager_history(acc: &mut Acc, r: &mut Rng, steps: u64) {
                     acc.count("manager.create.rejected");
                     if expect_ok {
                         acc.violation("C20", "T1/manager/due-epoch-rejected", detail(&ops, json!({"now": now, "start": mstart, "duration": duration})));
+                    }
+                    if due && hook_fault {
+                        acc.count("manager.create.rejected.failing-hook");
                     }
                     if now < genesis {
                         acc.count("manager.rejected.before-genesis");
@@ -168,6 +216,15 @@ fn manager_history(acc: &mut Acc, r: &mut Rng, steps: u64) {
         }
     }
     let k = ops.len().saturating_sub(6);
+    // the notification lists are also judged at the end (a rejected attempt must not have notified anybody)
+    for (hi, h) in hooks.iter().enumerate() {
+        acc.count("check.T3.hooks.final");
+        let seen: Vec<HookRecord> = query(&app, h, &Empty {}).unwrap();
+        let got: Vec<(u64, u64)> = seen.iter().map(|x| (x.epoch_id, x.start_time_ns)).collect();
+        if got != expected[hi] {
+            acc.violation("C20", "T3/hook-notifications!=created-epochs", detail(&ops, json!({"hook": hi, "seen": format!("{got:?}"), "epochs created while registered": format!("{:?}", expected[hi])})));
+        }
+    }
     acc.sample(|| json!({"clock": "epoch-manager", "hooks": n_hooks, "duration": duration, "tail": ops[k..].to_vec()}));
 }
 
@@ -287,9 +344,9 @@ pub fn run(ctx: &Ctx) -> (CheckMeta, Acc) {
     });
     let meta = CheckMeta {
         level: "exploration",
-        rule: "block-time schedules built from {same time, +1ns, boundary-1ns, boundary, boundary+1ns, half a duration late, 3.5 durations late, genesis-1ns, genesis, random} with 1-4 creation attempts per block by arbitrary accounts, durations in {1d, 1d+1ns, 2d/3d, 7d}, genesis offsets in {0, 1ns, 1us, 12h, 2d}, epoch manager start ids {0,1,9,10,255} with 0-3 recording hook contracts, and the real fee distributor (full system wiring). Reference clock model: accept iff now >= genesis and now - start >= duration; id += 1; start += duration (genesis first). After every attempt: accepted iff the model says so, CurrentEpoch == model, every hook's notification list == list of created epochs (exactly once, carrying the epoch), rejected attempts leave the state byte-identical; at the end ids and start times are gap-free. distinct = distinct (clock, hooks, time class, outcome, duration) tuples.".to_string(),
+        rule: "block-time schedules built from {same time, +1ns, boundary-1ns, boundary, boundary+1ns, half a duration late, 3.5 durations late, genesis-1ns, genesis, random} with 1-4 creation attempts per block by arbitrary accounts, durations in {1d, 1d+1ns, 2d/3d, 7d}, genesis offsets in {0, 1ns, 1us, 12h, 2d}, epoch manager start ids {0,1,9,10,255} with 0-3 recording hook contracts registered at the start, hooks added and removed by the owner mid-history (a hook's expected notifications are the epochs created while it was registered) and hooks that answer with an injected error for a while (the creation must then be rejected as a whole and succeed with the same id once the fault is gone), and the real fee distributor (full system wiring). Reference clock model: accept iff now >= genesis and now - start >= duration; id += 1; start += duration (genesis first). After every attempt: accepted iff the model says so, CurrentEpoch == model, every hook's notification list == list of created epochs (exactly once, carrying the epoch), rejected attempts leave the state byte-identical; at the end ids and start times are gap-free. distinct = distinct (clock, hooks, time class, outcome, duration) tuples.".to_string(),
         assumptions: vec!["epoch manager: the first created epoch is start_epoch.id + 1 at genesis + duration (the instantiated start epoch is the genesis epoch)".into()],
-        obligations: vec!["check.T1.manager".into(), "check.T1.distributor".into(), "check.T3.hooks".into(), "manager.create.ok".into(), "manager.create.rejected".into(), "distributor.create.ok".into(), "distributor.create.rejected".into(), "manager.create.ok.several-durations-late".into(), "distributor.create.ok.several-durations-late".into(), "distributor.rejected.before-genesis".into(), "check.U1".into()],
+        obligations: vec!["check.T1.manager".into(), "check.T1.distributor".into(), "check.T3.hooks".into(), "manager.create.ok".into(), "manager.create.rejected".into(), "distributor.create.ok".into(), "distributor.create.rejected".into(), "manager.create.ok.several-durations-late".into(), "distributor.create.ok.several-durations-late".into(), "distributor.rejected.before-genesis".into(), "check.U1".into(), "manager.hook.added".into(), "manager.hook.removed".into(), "manager.hook.removed-hook-stays-silent".into(), "manager.create.rejected.failing-hook".into()],
     };
     (meta, total)
 }
